@@ -81,7 +81,20 @@ class NoChoice(Exception):
     """random.choices with a total weight of zero / random.choice on an empty sequence: the sampler cannot continue"""
 
 
-LEGIT_STOPS = ('OSError', 'NoChoice')     # no complementary descriptor left / nothing to choose from
+class NoChoiceEmpty(NoChoice, IndexError):
+    """what random.choice raises on an empty sequence (IndexError)"""
+
+
+class NoChoiceZero(NoChoice, ValueError):
+    """what random.choices raises when the weights add up to zero (ValueError)"""
+
+
+# The sampler raising instead of returning is not a returned molecule: the statements of C16/C17 quantify over returned
+# molecules.  Exception types with which growth legitimately ends -- no complementary descriptor left (IOError), nothing to
+# choose from (IndexError, as random.choice), all weights zero (ValueError, as random.choices), whether random raises them
+# or the sampler itself does before asking -- prune the path; any other type is still reported.  That no configuration
+# is pruned away entirely is checked per configuration (vacuity_groups).
+LEGIT_STOPS = ('OSError', 'NoChoice', 'NoChoiceEmpty', 'NoChoiceZero', 'IndexError', 'ValueError')
 
 
 class Stream:
@@ -169,18 +182,18 @@ def stub_random_class(stream):
 
         def choice(self, seq):
             if len(seq) == 0:
-                raise NoChoice('empty sequence')
+                raise NoChoiceEmpty('Cannot choose from an empty sequence')
             return seq[stream.draw(len(seq), None, self._st)]
 
         def choices(self, population, weights=None, *, cum_weights=None, k=1):
             if cum_weights is not None or k != 1:
                 raise symx.Unsupported('random.choices with cum_weights / k != 1')
             if len(population) == 0:
-                raise NoChoice('empty sequence')
+                raise NoChoiceEmpty('Cannot choose from an empty sequence')
             if weights is not None:
                 weights = [float(x) if not symx.is_sym(x) else x for x in list(weights)]
                 if not any((x > 0) for x in weights):
-                    raise NoChoice('total weight zero')
+                    raise NoChoiceZero('Total of weights must be greater than zero')
             return [population[stream.draw(len(population), weights, self._st)]]
 
         def _outside(self, *a, **kw):
@@ -208,14 +221,14 @@ def install_rng(SH):
             return ('clock', -1)
         seq = a[0]
         if len(seq) == 0:
-            raise NoChoice('empty sequence')
+            raise NoChoiceEmpty('Cannot choose from an empty sequence')
         if f is random.choice:
             return seq[STREAM.draw(len(seq))]
         w = kw.get('weights')
         if w is not None:
             w = [float(x) if not symx.is_sym(x) else x for x in list(w)]
             if not any((x > 0) for x in w):
-                raise NoChoice('total weight zero')
+                raise NoChoiceZero('Total of weights must be greater than zero')
         return [seq[STREAM.draw(len(seq), w)]]
     symx.RT.call_hooks = [(pred, handler)]
     symx.RT.set_order_hook = None
@@ -247,6 +260,10 @@ class SamplerProp(core.Prop):
     def setup_shadow(self, SH):
         install_rng(SH)
         self._cut = [0]
+
+    @staticmethod
+    def vacuity_groups(shape):
+        return shape['cfg']
 
     def extra_counts(self):
         n = self._cut[0]
@@ -335,14 +352,14 @@ class SamplerProp(core.Prop):
 
         def choice(seq):
             if len(seq) == 0:
-                raise NoChoice('empty sequence')
+                raise NoChoiceEmpty('Cannot choose from an empty sequence')
             return seq[rs.draw(len(seq))]
 
         def choices(seq, weights=None, **kw):
             if len(seq) == 0:
-                raise NoChoice('empty sequence')
+                raise NoChoiceEmpty('Cannot choose from an empty sequence')
             if weights is not None and not any(float(x) > 0 for x in weights):
-                raise NoChoice('total weight zero')
+                raise NoChoiceZero('Total of weights must be greater than zero')
             return [seq[rs.draw(len(seq), [float(x) for x in weights] if weights is not None else None)]]
         random.choice, random.choices, random.seed = choice, choices, (lambda a=None: rs.do_seed(a))
         random.Random = stub_random_class(rs)        # generator objects of their own: the same recorded stream
